@@ -1,10 +1,16 @@
 //! Watcher decision tables (src/hot_reloading/watcher.rs) → `Gen/Watch.lean`.
 //!
-//! * `watchTable : EvKind → Arm` — for each (fine) `notify::EventKind` which of {path, parent}
-//!   the first matching arm of `match event.kind` in `NotifyEventHandler::handle_event` yields
-//!   (with / without an existing parent), or that the handler returns.
+//! * `watchTable : EvKind → Arm` — for each (fine) `notify::EventKind` what the first matching arm
+//!   of `let (with_parent, is_dir) = match event.kind {..}` in `NotifyEventHandler::handle_event`
+//!   yields: `return`, or the pair (is the parent directory named too, what the notification says
+//!   about the kind of the entry). The rest of the loop body (one `id_of_path` per root, the
+//!   parent taken from the id of the entry, one `send_multiple`, the watcher dropped on a failed
+//!   send) is compared literally; any other shape is refused.
 //! * `compTable : CompKind → CompAct` — what the `match comp` loop of `id_of_path` does with each
 //!   `std::path::Component` kind (push / pop / skip / give up).
+//! * `idShape : IdShape` — the rest of `id_of_path`: is the root itself translated, where the kind
+//!   comes from, which part of the name is the last id segment of a directory / of a file, is an
+//!   empty extension (`name.`) refused.
 //!
 //! Patterns and arm bodies outside the tiny recognised subset are refused.
 
@@ -43,26 +49,30 @@ fn last_seg(p: &syn::Path) -> String {
     p.segments.last().map(|s| s.ident.to_string()).unwrap_or_default()
 }
 
-/// Fine event kinds: (Lean constructor, EventKind variant, is the sub-kind `ModifyKind::Name(_)`).
-const EV_KINDS: &[(&str, &str, bool)] = &[
-    ("any", "Any", false),
-    ("access", "Access", false),
-    ("create", "Create", false),
-    ("modifyName", "Modify", true),
-    ("modifyOther", "Modify", false),
-    ("remove", "Remove", false),
-    ("other", "Other", false),
+/// Fine event kinds: (Lean constructor, EventKind variant, sub-kind: "" = none distinguished,
+/// "Name" = `ModifyKind::Name(_)`, "File" / "Folder" = `RemoveKind::File` / `RemoveKind::Folder`,
+/// "*" = any other sub-kind of that variant).
+const EV_KINDS: &[(&str, &str, &str)] = &[
+    ("any", "Any", ""),
+    ("access", "Access", ""),
+    ("create", "Create", ""),
+    ("modifyName", "Modify", "Name"),
+    ("modifyOther", "Modify", "*"),
+    ("removeFile", "Remove", "File"),
+    ("removeFolder", "Remove", "Folder"),
+    ("removeOther", "Remove", "*"),
+    ("other", "Other", ""),
 ];
 
-/// Does pattern `p` match the event kind (variant, is_name)?  Err = unrecognised pattern.
-fn ev_pat_matches(p: &Pat, variant: &str, is_name: bool) -> Result<bool, String> {
+/// Does pattern `p` match the event kind (variant, sub)?  Err = unrecognised pattern.
+fn ev_pat_matches(p: &Pat, variant: &str, sub: &str) -> Result<bool, String> {
     match p {
         Pat::Wild(_) => Ok(true),
-        Pat::Paren(pp) => ev_pat_matches(&pp.pat, variant, is_name),
+        Pat::Paren(pp) => ev_pat_matches(&pp.pat, variant, sub),
         Pat::Or(o) => {
             let mut any = false;
             for c in o.cases.iter() {
-                any |= ev_pat_matches(c, variant, is_name)?;
+                any |= ev_pat_matches(c, variant, sub)?;
             }
             Ok(any)
         }
@@ -88,7 +98,12 @@ fn ev_pat_matches(p: &Pat, variant: &str, is_name: bool) -> Result<bool, String>
             match &ts.elems[0] {
                 Pat::Wild(_) => Ok(v == variant),
                 Pat::TupleStruct(inner) if v == "Modify" && last_seg(&inner.path) == "Name" && inner.elems.len() == 1 && matches!(inner.elems[0], Pat::Wild(_)) => {
-                    Ok(variant == "Modify" && is_name)
+                    Ok(variant == "Modify" && sub == "Name")
+                }
+                Pat::Path(inner) if v == "Remove" && ["File", "Folder"].contains(&last_seg(&inner.path).as_str()) => {
+                    let seg: Vec<String> = inner.path.segments.iter().map(|x| x.ident.to_string()).collect();
+                    if seg.len() < 2 || seg[seg.len() - 2] != "RemoveKind" { return Err(format!("unrecognised sub-pattern `{}`", squash(inner))); }
+                    Ok(variant == "Remove" && sub == last_seg(&inner.path))
                 }
                 other => Err(format!("unrecognised sub-pattern `{}`", squash(other))),
             }
@@ -108,74 +123,122 @@ fn unwrap_block(e: &Expr) -> &Expr {
     }
 }
 
-/// `vec![&*path, parent]` → ["path", "parent"]
-fn vec_which(e: &Expr) -> Result<Vec<&'static str>, String> {
-    let e = unwrap_block(e);
-    let m = match e {
-        Expr::Macro(m) if m.mac.path.is_ident("vec") => m,
-        _ => return Err(format!("arm body `{}` is not a vec![..] of path / parent", squash(e))),
-    };
-    let elems = m
-        .mac
-        .parse_body_with(syn::punctuated::Punctuated::<Expr, syn::Token![,]>::parse_terminated)
-        .map_err(|er| format!("vec! body: {er}"))?;
-    let mut out = vec![];
-    for x in elems.iter() {
-        let s = squash(x);
-        let s = s.trim_start_matches('&').trim_start_matches('*');
-        match s {
-            "path" => out.push("path"),
-            "parent" => out.push("parent"),
-            _ => return Err(format!("vec! element `{}` is neither path nor parent", squash(x))),
-        }
-    }
-    Ok(out)
-}
-
-/// Arm body → Lean term of type `Arm`.
+/// Arm body → Lean term of type `Arm`: `return`, or `(with_parent, is_dir)` literally.
 fn ev_arm(e: &Expr) -> Result<String, String> {
     let e = unwrap_block(e);
-    let show = |v: &[&str]| format!("[{}]", v.iter().map(|w| format!(".{w}")).collect::<Vec<_>>().join(", "));
     match e {
         Expr::Return(r) if r.expr.is_none() => Ok(".ret".into()),
-        Expr::Macro(_) => {
-            let v = vec_which(e)?;
-            if v.contains(&"parent") {
-                return Err("`parent` used outside `match path.parent()`".into());
-            }
-            Ok(format!(".paths {} {}", show(&v), show(&v)))
-        }
-        Expr::Match(m) if squash(&m.expr) == "path.parent()" => {
-            let (mut with, mut without) = (None, None);
-            for arm in &m.arms {
-                if arm.guard.is_some() {
-                    return Err("guard in `match path.parent()`".into());
-                }
-                let p = squash(&arm.pat);
-                let some_binder = p.strip_prefix("Some(").and_then(|r| r.strip_suffix(')')).map_or(false, |b| b == "parent" || b.starts_with('_'));
-                if some_binder {
-                    let v = vec_which(&arm.body)?;
-                    if p != "Some(parent)" && v.contains(&"parent") {
-                        return Err("`parent` used but not bound by `Some(parent)`".into());
-                    }
-                    with = Some(v);
-                } else if p == "None" {
-                    let v = vec_which(&arm.body)?;
-                    if v.contains(&"parent") {
-                        return Err("`parent` used in the None arm".into());
-                    }
-                    without = Some(v);
-                } else {
-                    return Err(format!("unrecognised pattern `{p}` in `match path.parent()`"));
-                }
-            }
-            match (with, without) {
-                (Some(w), Some(n)) => Ok(format!(".paths {} {}", show(&w), show(&n))),
-                _ => Err("`match path.parent()` without both Some(parent) and None arms".into()),
-            }
+        Expr::Tuple(t) if t.elems.len() == 2 => {
+            let wp = match squash(&t.elems[0]).as_str() { "true" => "true", "false" => "false", o => return Err(format!("`with_parent` is not a literal: `{o}`")) };
+            let hint = match squash(&t.elems[1]).as_str() {
+                "None" => "none", "Some(true)" => "(some true)", "Some(false)" => "(some false)",
+                o => return Err(format!("`is_dir` is not None / Some(literal): `{o}`")),
+            };
+            Ok(format!(".act {wp} {hint}"))
         }
         other => Err(format!("unrecognised arm body `{}`", squash(other))),
     }
+}
+
+/// The loop body of `handle_event` around the kind table, literally.
+const LOOP_BEFORE: &str = "let(with_parent,is_dir)=";
+const LOOP_AFTER: &[&str] = &[
+    "letid_builder=&mutself.id_builder;",
+    "letids=self.roots.iter().filter_map(|root|id_of_path(id_builder,root,&path,is_dir)).flat_map(|entry|{letparent=matchentry.as_dir_entry().parent_id(){Some(id)ifwith_parent=>Some(id.into()),_=>None,};std::iter::once(entry).chain(parent.map(OwnedDirEntry::Directory))});",
+    "ifself.events.send_multiple(ids).is_err(){drop(self.watcher.take());}",
+];
+
+struct FindFor { found: Vec<syn::ExprForLoop> }
+impl<'ast> Visit<'ast> for FindFor {
+    fn visit_expr_for_loop(&mut self, f: &'ast syn::ExprForLoop) {
+        if squash(&f.expr) == "event.paths" { self.found.push(f.clone()); }
+        syn::visit::visit_expr_for_loop(self, f);
+    }
+}
+
+/// Checks the shape of `for path in event.paths { let (with_parent, is_dir) = match event.kind {..}; .. }`
+/// and returns the match.
+fn event_loop(block: &syn::Block) -> Result<syn::ExprMatch, String> {
+    let mut v = FindFor { found: vec![] };
+    v.visit_block(block);
+    if v.found.len() != 1 { return Err(format!("handle_event: expected exactly one `for path in event.paths`, found {}", v.found.len())); }
+    let f = &v.found[0];
+    if squash(&f.pat) != "path" { return Err("handle_event: the loop variable is not `path`".into()); }
+    let st = &f.body.stmts;
+    if st.len() != 1 + LOOP_AFTER.len() { return Err(format!("handle_event: the loop over event.paths has {} statements, expected {}", st.len(), 1 + LOOP_AFTER.len())); }
+    let m = match &st[0] {
+        syn::Stmt::Local(l) if squash(&l.pat) == "(with_parent,is_dir)" => match l.init.as_ref().map(|i| (&*i.expr, i.diverge.is_none())) {
+            Some((Expr::Match(m), true)) if squash(&m.expr) == "event.kind" => m.clone(),
+            _ => return Err("handle_event: `(with_parent, is_dir)` is not initialised by `match event.kind`".into()),
+        },
+        other => return Err(format!("handle_event: the loop does not start with `{LOOP_BEFORE}match event.kind {{..}}`: `{}`", squash(other))),
+    };
+    for (k, want) in LOOP_AFTER.iter().enumerate() {
+        let got = squash(&st[k + 1]);
+        if got != *want { return Err(format!("handle_event: unrecognised statement `{got}` (expected `{want}`)")); }
+    }
+    Ok(m)
+}
+
+/// The part of `id_of_path` around its component loop → Lean term of type `IdShape`.
+fn id_shape(f: &crate::find::FnRef) -> Result<String, String> {
+    let params: Vec<String> = f.sig.inputs.iter().map(|a| match a { syn::FnArg::Typed(t) => squash(&t.pat), o => squash(o) }).collect();
+    let has_hint = match params.iter().map(|x| x.as_str()).collect::<Vec<_>>()[..] {
+        ["id_builder", "root", "path"] => false,
+        ["id_builder", "root", "path", "is_dir"] => true,
+        _ => return Err(format!("id_of_path: unrecognised parameters {params:?}")),
+    };
+    let st = &f.block.stmts;
+    let mut k = 0;
+    if st.get(k).map(|x| squash(x)) != Some("id_builder.reset();".into()) { return Err("id_of_path: does not start with `id_builder.reset();`".into()); }
+    k += 1;
+    let mut root_check = false;
+    if let Some(x) = st.get(k) {
+        if !matches!(x, syn::Stmt::Expr(Expr::ForLoop(_), _)) {
+            if squash(x) == "ifpath==root{returnSome(OwnedDirEntry::Directory(id_builder.join()));}" { root_check = true; k += 1; }
+            else { return Err(format!("id_of_path: unrecognised statement before the loop `{}`", squash(x))); }
+        }
+    }
+    match st.get(k) { Some(syn::Stmt::Expr(Expr::ForLoop(_), _)) => k += 1, _ => return Err("id_of_path: component loop not found".into()) }
+    let rest: Vec<String> = st[k..].iter().map(|x| squash(x)).collect();
+    let cond_of = |c: &str| -> Result<bool, String> {
+        match c { "path.is_dir()" => Ok(false), "is_dir.unwrap_or_else(||path.is_dir())" if has_hint => Ok(true), o => Err(format!("id_of_path: unrecognised kind test `{o}`")) }
+    };
+    let if_of = |s: &syn::Stmt| -> Result<syn::ExprIf, String> {
+        match s {
+            syn::Stmt::Local(l) if squash(&l.pat) == "entry" => match l.init.as_ref().map(|i| &*i.expr) { Some(Expr::If(i)) => Ok(i.clone()), _ => Err("id_of_path: `entry` is not initialised by an `if`".into()) },
+            o => Err(format!("id_of_path: expected `let entry = if ..`, found `{}`", squash(o))),
+        }
+    };
+    let else_block = |i: &syn::ExprIf| -> Result<syn::Block, String> {
+        match &i.else_branch { Some((_, e)) => match &**e { Expr::Block(b) => Ok(b.block.clone()), _ => Err("id_of_path: else branch".to_string()) }, None => Err("id_of_path: no else branch".into()) }
+    };
+    const EXT_MATCH: &str = "letext=matchpath.extension(){Some(ext)ifext.is_empty()=>returnNone,Some(ext)=>ext.to_str()?,None=>\"\",};";
+    let (hint, dir_name, file_name, reject) = if rest.len() == 4 && rest[0] == "id_builder.push(path.file_stem()?.to_str()?)?;" && rest[1] == "letid=id_builder.join();" && rest[3] == "Some(entry)" {
+        // the name is pushed before the kind is known
+        let i = if_of(&st[k + 2])?;
+        if squash(&i.then_branch) != "{OwnedDirEntry::Directory(id)}" { return Err("id_of_path: unrecognised directory branch".into()); }
+        if squash(&else_block(&i)?) != "{letext=crate::utils::extension_of(path)?.into();OwnedDirEntry::File(id,ext)}" { return Err("id_of_path: unrecognised file branch".into()); }
+        (cond_of(&squash(&i.cond))?, ".stem", ".stem", false)
+    } else if rest.len() == 2 && rest[1] == "Some(entry)" {
+        let i = if_of(&st[k])?;
+        let d: Vec<String> = i.then_branch.stmts.iter().map(|x| squash(x)).collect();
+        let dir_name = match d.iter().map(|x| x.as_str()).collect::<Vec<_>>()[..] {
+            ["id_builder.push(path.file_name()?.to_str()?)?;", "OwnedDirEntry::Directory(id_builder.join())"] => ".whole",
+            ["id_builder.push(path.file_stem()?.to_str()?)?;", "OwnedDirEntry::Directory(id_builder.join())"] => ".stem",
+            _ => return Err(format!("id_of_path: unrecognised directory branch `{}`", d.join(""))),
+        };
+        let e: Vec<String> = else_block(&i)?.stmts.iter().map(|x| squash(x)).collect();
+        let (file_name, reject) = match e.iter().map(|x| x.as_str()).collect::<Vec<_>>()[..] {
+            ["id_builder.push(path.file_stem()?.to_str()?)?;", EXT_MATCH, "OwnedDirEntry::File(id_builder.join(),ext.into())"] => (".stem", true),
+            ["id_builder.push(path.file_stem()?.to_str()?)?;", "letext=crate::utils::extension_of(path)?;", "OwnedDirEntry::File(id_builder.join(),ext.into())"] => (".stem", false),
+            _ => return Err(format!("id_of_path: unrecognised file branch `{}`", e.join(""))),
+        };
+        (cond_of(&squash(&i.cond))?, dir_name, file_name, reject)
+    } else {
+        return Err(format!("id_of_path: unrecognised statements after the loop `{}`", rest.join("")));
+    };
+    Ok(format!("{{ rootIsEmptyDir := {root_check}, kindFromHint := {hint}, dirName := {dir_name}, fileName := {file_name}, emptyExtRefused := {reject} }}"))
 }
 
 const COMP_KINDS: &[(&str, &str)] = &[("pfx", "Prefix"), ("rootDir", "RootDir"), ("curDir", "CurDir"), ("parentDir", "ParentDir"), ("normal", "Normal")];
@@ -213,15 +276,15 @@ pub fn gen(ctx: &mut Ctx) -> Result<String, String> {
 
     // ---- event-kind table
     let f = find_fn(&file, "EventHandler for NotifyEventHandler", "handle_event")?;
-    let m = find_match(f.block, "event.kind", "NotifyEventHandler::handle_event")?;
-    out.push_str("/-- `match event.kind` of `NotifyEventHandler::handle_event`: first matching arm per kind. -/\ndef watchTable : EvKind → Arm\n");
-    for (lean, variant, is_name) in EV_KINDS {
+    let m = event_loop(f.block)?;
+    out.push_str("/-- `let (with_parent, is_dir) = match event.kind {..}` of `NotifyEventHandler::handle_event`: first matching arm per kind. -/\ndef watchTable : EvKind → Arm\n");
+    for (lean, variant, sub) in EV_KINDS {
         let mut chosen = None;
         for arm in &m.arms {
             if arm.guard.is_some() {
                 return Err("handle_event: guard in `match event.kind`".into());
             }
-            if ev_pat_matches(&arm.pat, variant, *is_name).map_err(|e| format!("handle_event: {e}"))? {
+            if ev_pat_matches(&arm.pat, variant, sub).map_err(|e| format!("handle_event: {e}"))? {
                 chosen = Some(ev_arm(&arm.body).map_err(|e| format!("handle_event ({variant}): {e}"))?);
                 break;
             }
@@ -252,6 +315,7 @@ pub fn gen(ctx: &mut Ctx) -> Result<String, String> {
     // what the loop iterates over: the parent of the path, stripped of the root
     let iter_ok = squash(f.block).contains("forcompinpath.parent()?.strip_prefix(root).ok()?.components()");
     out.push_str(&format!("\n/-- the loop of `id_of_path` runs over `path.parent()?.strip_prefix(root).ok()?.components()` -/\ndef idLoopOverStrippedParent : Bool := {}\n", iter_ok));
+    out.push_str(&format!("\n/-- `id_of_path` around its component loop -/\ndef idShape : IdShape := {}\n", id_shape(&f)?));
     out.push_str("\nend AmVerif.Gen\n");
     Ok(out)
 }
